@@ -36,3 +36,23 @@ def resolve(spec, size, seg):
     else:
         v = spec[1]
     return max(0, min(size, v))
+
+
+def read_full_survey(g, client, node):
+    """Retrieve the best recoverable version found by a survey of EVERY server (MODE_CHECK).  A default read stops as soon as it has located k shares of some
+    version and may legitimately return an older version whose shares failed writes left behind."""
+    from allmydata.mutable.common import MODE_CHECK
+    from allmydata.mutable.retrieve import Retrieve
+    from allmydata.util.consumer import MemoryConsumer
+    d = node.get_servermap(MODE_CHECK)
+
+    def fetch(sm):
+        ver = sm.best_recoverable_version()
+        if ver is None:
+            raise RuntimeError("no recoverable version in a full survey: %s" % sm.summarize_versions())
+        c = MemoryConsumer()
+        d2 = Retrieve(node, client.broker, sm, ver).download(c)
+        d2.addCallback(lambda ign: b"".join(c.chunks))
+        return d2
+    d.addCallback(fetch)
+    return g.run(d)
